@@ -194,6 +194,8 @@ Variable D : document.
 Variable memo : bool.
 Hypothesis HP_ff : forall st p k g fl,
   minv st -> ff_has st p k g fl = false -> minv (ff_add st p k g fl).
+Hypothesis HP_oof : forall st, minv st -> minv (set_oof st).
+Hypothesis HP_fc : forall st, minv st -> minv (inc_fc st).
 Hypothesis HP_pair : forall st g1 g2 fl f1 f2,
   minv st -> frag D g1 = Some f1 -> frag D g2 = Some f2 -> String.eqb g1 g2 = false ->
   pair_has st g1 g2 fl = false -> minv (pair_add st g1 g2 fl).
@@ -205,14 +207,14 @@ Lemma all_inv : forall fuel,
   (forall fl s g st, minv st -> minv (snd (ffrag S D memo fuel fl s g st))) /\
   (forall fl g1 g2 st, minv st -> minv (snd (frfr S D memo fuel fl g1 g2 st))).
 Proof.
-  induction fuel as [|f IH]; [split; [|split; [|split; [|split]]]; intros; simpl; assumption|].
+  induction fuel as [|f IH]; [split; [|split; [|split; [|split]]]; intros; simpl; apply HP_oof; assumption|].
   destruct IH as (Ifc & Ibt & Isub & Iff & Ifr).
   split; [|split; [|split; [|split]]].
-  - (* fc *) intros fl a b st H. simpl.
+  - (* fc *) intros fl a b st H0. simpl. pose proof (HP_fc st H0) as H.
     destruct (negb (base_ok S (fl || excl S a b) a b)); [exact H|].
     destruct (has_sub a && has_sub b); [|exact H].
-    specialize (Isub (fl || excl S a b) (sub_pt a, fe_sub a) (sub_pt b, fe_sub b) st H).
-    destruct (subsets S D memo f (fl || excl S a b) (sub_pt a, fe_sub a) (sub_pt b, fe_sub b) st) as [cs st'].
+    specialize (Isub (fl || excl S a b) (sub_pt a, fe_sub a) (sub_pt b, fe_sub b) (inc_fc st) H).
+    destruct (subsets S D memo f (fl || excl S a b) (sub_pt a, fe_sub a) (sub_pt b, fe_sub b) (inc_fc st)) as [cs st'].
     exact Isub.
   - (* between *) intros fl l1 l2 st H. simpl.
     apply seq_inv; [|exact H]. intros k st1 _ H1.
@@ -317,6 +319,8 @@ Proof.
   intros S D memo fuel. apply final_inv.
   - intros st p k g fl (Hp & Hf & Hd) Eh. split; [exact Hp|]. split; [|exact Hd]. simpl.
     apply ffs_inv_add; [exact Hf | apply ff_has_false; exact Eh].
+  - intros st H. exact H.
+  - intros st H. exact H.
   - intros st g1 g2 fl f1 f2 (Hp & Hf & Hd) E1 E2 Eg Eh. split; [|split; [exact Hf|]]; simpl.
     + apply pairs_inv_add; [exact Hp | apply String.eqb_neq; exact Eg | apply pair_has_false; exact Eh].
     + intros a b f [H|[H|H]].
